@@ -9,6 +9,8 @@
    from_eebus_global  the same passes applied to the whole text (JsonFromEEBUSJson before the
              repair "fix: leave string literals alone")
    render d  the compact JSON text of d;  norm d = d with every empty array turned into {}
+   ship_message d / received_text  the SHIP data message around the SPINE payload d as
+             sendSpineData writes it, and the JSON text the receiver decodes from a message
    lits_wf d lexical well-formedness only: member names and string values are quote ... quote
              with quotes inside only after a backslash; other literals hold no quote, bracket,
              brace or comma.  Nothing is assumed about the content of strings. *)
@@ -112,6 +114,25 @@ Theorem C07_wire_keeps_names_and_literals :
   forall d, names_of (to_eebus d) = names_of d /\ scalars_of (to_eebus d) = scalars_of d.
 Proof. exact eebus_keeps_names_and_literals. Qed.
 Print Assumptions C07_wire_keeps_names_and_literals.
+
+(* end to end (placeholder splice, ship/connection.go): for the SPINE payload d the sender
+   writes ship_message d to the websocket; the text the receiver obtains from it with
+   JsonFromEEBUSJson is the SHIP data envelope whose payload bytes - what the SPINE reader
+   is handed - are render (norm d) *)
+Theorem C07_end_to_end_partial :
+  forall d, top_nonempty d = true -> lits_wf d = true ->
+  exists msg, ship_message d = Some msg /\
+              received_text msg = render (envelope (JS (render (norm d)))).
+Proof. exact e2e_roundtrip. Qed.
+Print Assumptions C07_end_to_end_partial.
+
+(* the end-to-end monitor of the check on that payload: only code 11, none without an empty array *)
+Theorem C07_end_to_end_monitor_partial :
+  forall d, top_nonempty d = true -> lits_wf d = true ->
+            incl (e2e_codes d (Some (render (norm d)))) [11] /\
+            (has_empty_array d = false -> e2e_codes d (Some (render (norm d))) = []).
+Proof. exact e2e_monitor. Qed.
+Print Assumptions C07_end_to_end_monitor_partial.
 
 (* lits_wf asks nothing of string contents: any bytes without quote and backslash between
    two quotes qualify (escapes are covered by str_tail_ok itself), and so does any
